@@ -254,6 +254,29 @@ def _native_main():
         if out[0] == 'ESCAPED' or events or (out[0] == 'value' and 'class' in repr(out[1]) and '__class__' not in repr(out[1])):
             bad.append([g, out, list(events)[:2]])
     emit('C_shadowing_and_fstrings[5]', not bad, bad)
+    # C3b: an AST key that shadows a dangerous builtin, used inside a NESTED scope (lambda, generator expression) run by an allowed builtin: names in
+    # nested scopes are global loads, which bypass the context mapping; the evaluation globals must not fall back to the real builtins
+    bad = []
+    CALLS = {'open': "open('/nonexistent/vt')", 'eval': "eval('open(chr(47))')", 'exec': "exec('import os')", 'compile': "compile('1', 'f', 'eval')", 'input': 'input()',
+             'exit': 'exit()', 'breakpoint': 'breakpoint()', 'getattr': "getattr(0, 'real')", 'globals': 'globals()', 'vars': 'vars()'}
+    NESTED = ["max([0], key=lambda _: {c})", "any({c} for _ in [0])", "sorted([0], key=lambda _: {c})", "list(map(lambda _: {c}, [0]))", "sum(1 for _ in [0] if {c})", "(lambda: {c})()"]
+    count = 0
+    for name, call in CALLS.items():
+        for tpl in NESTED:
+            count += 1
+            g = f"start: {name}=/\\w+/ r=`{tpl.format(c=call)}` $ ;"
+            del events[:]
+            try:
+                v = tatsu.compile(g).parse('abc')
+                out = ('value', v)
+            except ParseException as e:
+                out = ('tatsu-exception', type(e).__name__)
+            except BaseException as e:  # noqa: BLE001
+                out = ('ESCAPED', repr(e)[:80])
+            evaluated = out[0] == 'value' and not isinstance(out[1].get('r') if hasattr(out[1], 'get') else None, str)
+            if out[0] == 'ESCAPED' or events or evaluated:
+                bad.append([g, repr(out)[:80], list(events)[:2]])
+    emit(f'C_shadowed_builtin_in_nested_scope[{count}]', not bad, bad[:8])
     # C5: names bound in one rule / parse / grammar are not visible to constants elsewhere, and builtins are not replaced by AST keys
     bad = []
     before = sorted(safe_builtins())
